@@ -1,6 +1,8 @@
 """C12: files that contain duplicate UniqueIds, produced without rbx-dom (refbin.py for binary,
 plain text for XML), to be decoded by the real readers (`vh c12read`)."""
 import json, os, random, sys
+import sys as _sys
+_sys.setrecursionlimit(20000)  # trees of the size scenarios are hundreds of levels deep
 
 sys.path.insert(0, os.path.dirname(os.path.dirname(os.path.abspath(__file__))))
 import refbin  # noqa: E402
